@@ -3,6 +3,7 @@ CONSTANTS
   StrMax = 7
   KAll = 3
   KSem = 3
+  SemDims = {"second", "tkeys", "iaddr", "itype", "iamt", "trs", "conv"}
   BigMenu = TRUE
 INIT Init
 NEXT Next
